@@ -1,7 +1,8 @@
 """C08 — the local search only improves, in the documented priority order, up to a fixpoint.
 
 (a) configuration: build_local_search_solver hands ParallelLocalSearchSolver::with_options the RSSched neighbourhood, the
-    objective of objective::build (levels in the documented order, C04 job), no custom improver, no time limit, no
+    objective of objective::build (levels in the documented order; each level's indicator reads exactly its cached figure - the
+    indicator job shared with C04), no custom improver, no time limit, no
     iteration limit;  (b) the improver that with_options then installs (rapid_solve's ParallelMinimizer::improve, executed
     from the registry crate's real MIR with K symbolic candidates): it returns a candidate only if it is strictly smaller
     than the current solution in the lexicographic order of the four levels, and None exactly when no candidate is."""
@@ -9,7 +10,7 @@ import z3, itertools
 from ..core import *
 from .. import models as M, netbuild as NB
 from ..harness import JobCtx
-from .C04 import LEVELS, read_objective
+from .C04 import LEVELS, read_objective, job_indicators
 
 PROPERTY = 'C08'
 MIR = [('solver', 'on'), ('rapid_solve', 'on'), ('solution', 'on'), ('solver', 'off'), ('rapid_solve', 'off'), ('solution', 'off')]
@@ -21,7 +22,7 @@ BOUNDS = {'quick': 'improver: K = 0..3 candidates with fully symbolic i64 object
 OUTSIDE = 'termination of the search loop and whole trajectories (C06/C08 quantify over runs; only the step rule and the configuration are decided here)'
 
 def jobs(tier, seed):
-    js = [dict(name='search configuration', func='job_config', kwargs={})]
+    js = [dict(name='search configuration', func='job_config', kwargs={}), dict(name='indicators', func='job_indicators', kwargs={})]
     for k in range(0, 4 if tier == 'quick' else 5): js.append(dict(name='improver step, %d candidates' % k, func='job_improve', kwargs=dict(k=k)))
     return js
 
